@@ -201,6 +201,23 @@ def check_program(ctx, fns, kind, names, rows, ops, resolved, cases, tmpdir, whe
                 ctx.oracle_fail("stream %d changed after later steps / second iteration" % n, dict(case, step=n),
                                 t2 + "@" + pipe_text(stream), first + "@" + pipe, size=size + n)
                 break
+        # two passes over the same stream object alive at once: a pass paused after two records, a complete pass in
+        # between, then the rest of the paused pass; and the two passes of zip(s, s)
+        if items is not None and not first.startswith("iter:"):
+            try:
+                it = iter(stream)
+                head = list(itertools.islice(it, 2))
+                whole = list(stream)
+                inter = "[" + " ".join(item_text(x) for x in head + list(it)) + "]"
+                pairs = list(zip(stream, stream))
+                zipped = "[" + " ".join(item_text(a) for a, b in pairs) + "]"
+                zipped2 = "[" + " ".join(item_text(b) for a, b in pairs) + "]"
+                if not (inter == first and zipped == first and zipped2 == first and len(whole) == len(items)):
+                    ctx.oracle_fail("two interleaved passes over stream %d do not each list its rows" % n, dict(case, step=n),
+                                    {"paused+resumed": inter, "zip-left": zipped, "zip-right": zipped2}, first, size=size + n)
+            except Exception as e:
+                ctx.oracle_fail("interleaved passes over stream %d raised %s" % (n, type(e).__name__), dict(case, step=n),
+                                repr(e)[:200], first, size=size + n)
     if len(exp) == len(ops) + 1 and err is not None:
         ctx.oracle_fail("a step of a valid program raised " + err, case, text, "no exception", size=size)
     valid = len(exp) == len(ops) + 1
